@@ -348,7 +348,65 @@ def r5_single_pass(prog, res):
     singlepass.check(prog, res, "R5.one_module_per_schema", "exp2python/src/multpass_python.c", "exp2python")
 
 
+def r6_same_template_same_filter(prog, res):
+    """A numbered name that is written from two places - `inherited<i>__<name>` as a formal parameter of __init__ and as the
+    argument passed on to the parent's __init__ - has to be written for the same attributes in both, otherwise the numbers
+    and names of the two lists differ: the emission sites of one such format string (it carries a running index that is
+    advanced right after) inside one generator function stand under the same schema predicates with the same polarity."""
+    n = 0
+    for f in prog.all_functions():
+        if f.component != "exp2python":
+            continue
+        groups = {}
+        for c in f.calls():
+            if (c.get("fn") or "") != "fprintf":
+                continue
+            a = call_args(c)
+            if len(a) >= 2 and strip(a[1]) is not None and strip(a[1])["k"] == "Str" and "%" in strip(a[1])["s"]:
+                groups.setdefault(strip(a[1])["s"], []).append(c)
+        for fmt, cs in sorted(groups.items()):
+            if len(cs) < 2:
+                continue
+            # only positional names: the text carries a running index that is advanced right after it is written
+            def numbered(c):
+                par = f.parent.get(c["i"])
+                for a_ in call_args(c)[2:]:
+                    v = strip(a_)
+                    if v is not None and v["k"] == "Ref" and v.get("dk") == "local" and par is not None:
+                        if any(y["k"] == "Unary" and y.get("op") in ("post++", "pre++") and strip(y["ch"][0]) is not None and
+                               strip(y["ch"][0]).get("d") == v["d"] for st in (par.get("ch") or []) if st is not None for y in walk(st)):
+                            return True
+                return False
+            if not all(numbered(c) for c in cs):
+                continue
+
+            def sig(c):
+                out = set()
+                for cn, pol in known_facts(f, c):
+                    cn0 = strip(cn)
+                    if cn0 is None:
+                        continue
+                    if (cn.get("mo") or cn.get("m") or "").startswith(("LISTdo", "DICTdo", "SCOPEdo")) or \
+                            (cn0.get("mo") or cn0.get("m") or "").startswith(("LISTdo", "DICTdo", "SCOPEdo", "_")):
+                        continue          # plumbing of the iteration macros
+                    if "val" in cn0 and cn0["k"] in ("Int", "Bool"):
+                        continue
+                    name = cn0.get("mo") or cn0.get("m")
+                    out.add((name if name and re.match(r"(VAR|TYPE|ENTITY|SCOPE|EXP|LIST)", name) else expr_str(cn0)[:70], pol))
+                return tuple(sorted(out, key=str))
+            sigs = [sig(c) for c in cs]
+            n += 1
+            ok = len(set(sigs)) == 1
+            res.add("R6.same_template_same_filter", "R6|%s|%s|%s" % (f.relfile(), f.name, fmt.strip()[:40]), f.where(cs[0]), ok,
+                    "the %d places that write %r stand under the same schema predicates %s" % (len(cs), fmt, list(sigs[0])) if ok else
+                    "%r is written at lines %s under different schema predicates (%s): the two pieces of generated code that must name the "
+                    "same attributes (e.g. the parameters of __init__ and the arguments passed to the parent's __init__) get out of step"
+                    % (fmt, [c["l"] for c in cs], " vs ".join(str([("%s%s" % ("" if p_ is True else "!" if p_ is False else "", n_)) for n_, p_ in sg]) for sg in sorted(set(sigs), key=str))))
+    res.floor("R6.same_template_same_filter", "numbered name templates written from several places of one generator function", n, 1)
+
+
 def run(prog, res, tier):
+    r6_same_template_same_filter(prog, res)
     r1_decls(res, tier)
     r5_single_pass(prog, res)
     r2_keywords(prog, res)
